@@ -10,6 +10,7 @@ import (
 	"google.golang.org/protobuf/proto"
 	"google.golang.org/protobuf/types/descriptorpb"
 
+	"github.com/bufbuild/protocompile"
 	"github.com/bufbuild/protocompile/internal/verifmon/gen"
 	"github.com/bufbuild/protocompile/internal/verifmon/vlib"
 	"github.com/bufbuild/protocompile/linker"
@@ -498,6 +499,43 @@ func runC19(r *vlib.Run, id string, c *c19Case, salt int) {
 				continue
 			}
 			warned[p]++
+		}
+	}
+	// the same file handed over as a descriptor proto (no source, no AST) must draw the same warnings
+	if pr, perr := parseResult(c.xName, c.src[c.xName]); perr == nil {
+		xp := proto.Clone(pr.FileDescriptorProto()).(*descriptorpb.FileDescriptorProto)
+		res := protocompile.WithStandardImports(protocompile.ResolverFunc(func(name string) (protocompile.SearchResult, error) {
+			if name == c.xName {
+				return protocompile.SearchResult{Proto: xp}, nil
+			}
+			if t, ok := c.src[name]; ok {
+				return protocompile.SearchResult{Source: strings.NewReader(t)}, nil
+			}
+			return protocompile.SearchResult{}, fmt.Errorf("file not found: %s", name)
+		}))
+		outP := gen.CompileWith(res, []string{c.xName}, gen.Opts{Par: par})
+		if outP.OK() {
+			warnedP := map[string]int{}
+			for f, paths := range unusedWarnings(outP) {
+				for _, p := range paths {
+					if f == c.xName {
+						warnedP[p]++
+					}
+				}
+			}
+			for p := range warned {
+				if warnedP[p] == 0 {
+					r.Violation("c19.form-dependent", "an import reported unused for the source is not reported when the same file is supplied as a descriptor proto", id, wit(map[string]any{"import": p}))
+				}
+			}
+			for p := range warnedP {
+				if warned[p] == 0 {
+					r.Violation("c19.form-dependent", "an import is reported unused only when the file is supplied as a descriptor proto", id, wit(map[string]any{"import": p}))
+				}
+			}
+			r.Class("descriptor-proto form compared")
+		} else {
+			r.Class("descriptor-proto form rejected (observed)")
 		}
 	}
 	known := map[string]*c19Import{}
